@@ -107,6 +107,10 @@ impl DirEntry {
 }
 #[verifier::external_body]
 fn shim_path_is_dir(p: &PathBuf) -> (r: bool) ensures r == is_dir_spec(*p) { p.is_dir() }
+#[verifier::external_body]
+fn shim_path_is_file(p: &PathBuf) -> (r: bool) { p.is_file() }
+#[verifier::external_body]
+fn shim_path_exists(p: &PathBuf) -> (r: bool) { p.exists() }
 // `out.sort()`: a sorted rearrangement of the same paths
 pub uninterp spec fn paths_sorted(s: Seq<PathBuf>) -> bool;
 #[verifier::external_body]
@@ -118,7 +122,7 @@ fn shim_sort_paths(v: &mut Vec<PathBuf>)
 DIR_SPEC = {
     "props": ["C19", "C12"],
     "header_rewrites": [("R32", r"\basync fn\b", "fn"), ("R9", r"io::Result<Vec<PathBuf>>", "Result<Vec<PathBuf>, IoError>")],
-    "rewrites": [("R32", r"\s*\.await\b", ""), ("R44", r"!path\.is_dir\(\)", "!shim_path_is_dir(&path)"), ("R44", r"out\.sort\(\);", "shim_sort_paths(&mut out);"), ("R24", None)],
+    "rewrites": [("R32", r"\s*\.await\b", ""), ("R44", r"\bpath\.is_dir\(\)", "shim_path_is_dir(&path)"), ("R44", r"\bpath\.is_file\(\)", "shim_path_is_file(&path)"), ("R44", r"\bpath\.exists\(\)", "shim_path_exists(&path)"), ("R44", r"out\.sort\(\);", "shim_sort_paths(&mut out);"), ("R24", None)],
     "contract": """    ensures
         // C19 / C12: every entry of the directory that is not itself a directory is listed (so that an unreadable one makes the load fail), nothing else is, in sorted order
         r is Ok ==> forall|p: PathBuf| r->Ok_0@.contains(p) <==> (dir_entries(dir).contains(p) && !is_dir_spec(p)), // [C19:every_file_of_a_configured_directory_is_loaded_or_the_load_fails]
@@ -161,77 +165,6 @@ proof {
     tk__ = t;
 }"""},
                 {"after": "out.sort();", "at": "before", "proof": "proof { assert(reader.taken@ =~= dir_entries(dir)); }"}],
-}
-
-SPEC = {
-    "props": ["C19", "C12"],
-    "header_rewrites": [("R32", r"\basync fn\b", "fn"), ("R9", r"io::Result<Vec<PathBuf>>", "Result<Vec<PathBuf>, IoError>")],
-    "rewrites": [("R32", r"\s*\.await\b", ""), ("R44", r"!path\.is_dir\(\)", "!shim_path_is_dir(&path)"), ("R44", r"out\.sort\(\);", "shim_sort_paths(&mut out);"), ("R24", None)],
-    "contract": """    ensures
-        // C19 / C12: every entry of the directory that is not itself a directory is listed (so that an unreadable one makes the load fail), nothing else is, in sorted order
-        r is Ok ==> forall|p: PathBuf| r->Ok_0@.contains(p) <==> (dir_entries(dir).contains(p) && !is_dir_spec(p)), // [C19:every_file_of_a_configured_directory_is_loaded_or_the_load_fails]
-        r is Ok ==> paths_sorted(r->Ok_0@), // [C12:directory_files_applied_in_sorted_order]""",
-    "loops": {"0": {"kw": "while", "spec": """        invariant
-            reader.taken@ + reader.rest@ == dir_entries(dir),
-            forall|p: PathBuf| #[trigger] out@.contains(p) ==> reader.taken@.contains(p) && !is_dir_spec(p),
-            forall|p: PathBuf| #[trigger] reader.taken@.contains(p) && !is_dir_spec(p) ==> out@.contains(p),
-        decreases reader.rest@.len(),
-""", "entry": "let ghost out0__ = out@;"}},
-    "anchors": [{"after": "let path = entry.path();", "proof": """let ghost pg__ = path;
-proof {
-    let t = reader.taken@; let t0 = t.drop_last();
-    assert(t.last() == path);
-    assert(t0.push(path) =~= t);
-    assert(t + reader.rest@ =~= dir_entries(dir)) by { assert(t0 + (seq![path] + reader.rest@) =~= t + reader.rest@); }
-    assert forall|p: PathBuf| t.contains(p) <==> (t0.contains(p) || p == path) by {
-        if t0.contains(p) { let j = choose|j: int| 0 <= j < t0.len() && t0[j] == p; assert(t[j] == p); }
-        if p == path { assert(t[t.len() - 1] == p); }
-        if t.contains(p) { let j = choose|j: int| 0 <= j < t.len() && t[j] == p; if j < t0.len() { assert(t0[j] == p); } }
-    }
-}"""},
-                {"after": "out.push(path);", "proof": """proof {
-    assert forall|p: PathBuf| out@.contains(p) <==> (out0__.contains(p) || p == path) by {
-        if out0__.contains(p) { let j = choose|j: int| 0 <= j < out0__.len() && out0__[j] == p; assert(out@[j] == p); }
-        if p == path { assert(out@[out0__.len() as int] == p); }
-        if out@.contains(p) { let j = choose|j: int| 0 <= j < out@.len() && out@[j] == p; if j < out0__.len() { assert(out0__[j] == p); } }
-    }
-}"""},
-                {"after": "out.sort();", "at": "before", "proof": "proof { assert(reader.taken@ =~= dir_entries(dir)); }"}],
-}
-
-SPEC = {
-    "props": ["C19", "C12"],
-    "header_rewrites": [("R32", r"\basync fn\b", "fn"), ("R9", r"io::Result<Vec<PathBuf>>", "Result<Vec<PathBuf>, IoError>")],
-    "rewrites": [("R32", r"\s*\.await\b", ""), ("R44", r"!path\.is_dir\(\)", "!shim_path_is_dir(&path)"), ("R44", r"out\.sort\(\);", "shim_sort_paths(&mut out);"), ("R24", None)],
-    "contract": """    ensures
-        // C19 / C12: every entry of the directory that is not itself a directory is listed (so that an unreadable one makes the load fail), nothing else is, in sorted order
-        r is Ok ==> forall|p: PathBuf| r->Ok_0@.contains(p) <==> (dir_entries(dir).contains(p) && !is_dir_spec(p)), // [C19:every_file_of_a_configured_directory_is_loaded_or_the_load_fails]
-        r is Ok ==> paths_sorted(r->Ok_0@), // [C12:directory_files_applied_in_sorted_order]""",
-    "loops": {"0": {"kw": "while", "spec": """        invariant
-            forall|p: PathBuf| out@.contains(p) <==> (dir_entries(dir).contains(p) && !reader.rest@.contains(p) && !is_dir_spec(p)) || (out@.contains(p) && reader.rest@.contains(p) && !is_dir_spec(p) && dir_entries(dir).contains(p)),
-            forall|p: PathBuf| reader.rest@.contains(p) ==> dir_entries(dir).contains(p),
-            forall|p: PathBuf| dir_entries(dir).contains(p) && !is_dir_spec(p) ==> out@.contains(p) || reader.rest@.contains(p),
-            forall|p: PathBuf| out@.contains(p) ==> dir_entries(dir).contains(p) && !is_dir_spec(p),
-        decreases reader.rest@.len(),
-""", "entry": "let ghost rest0__ = reader.rest@; let ghost out0__ = out@;"}},
-    "anchors": [{"after": "let path = entry.path();", "proof": """proof {
-    assert(rest0__[0] == path);
-    assert forall|p: PathBuf| rest0__.contains(p) implies p == path || reader.rest@.contains(p) by {
-        let j = choose|j: int| 0 <= j < rest0__.len() && rest0__[j] == p;
-        if j > 0 { assert(reader.rest@[j - 1] == p); }
-    }
-    assert forall|p: PathBuf| reader.rest@.contains(p) implies rest0__.contains(p) by {
-        let j = choose|j: int| 0 <= j < reader.rest@.len() && reader.rest@[j] == p;
-        assert(rest0__[j + 1] == p);
-    }
-}"""},
-                {"after": "out.push(path);", "proof": """proof {
-    assert forall|p: PathBuf| out@.contains(p) <==> (out0__.contains(p) || p == path) by {
-        if out0__.contains(p) { let j = choose|j: int| 0 <= j < out0__.len() && out0__[j] == p; assert(out@[j] == p); }
-        if p == path { assert(out@[out0__.len() as int] == p); }
-        if out@.contains(p) { let j = choose|j: int| 0 <= j < out@.len() && out@[j] == p; if j < out0__.len() { assert(out0__[j] == p); } }
-    }
-}"""}],
 }
 
 SPEC = {
